@@ -42,16 +42,6 @@ Instrs ==
   \cup (IF "sel" \in Alpha THEN {<<"sel", o, FALSE>> : o \in Offers2} ELSE {})
   \cup (IF "seld" \in Alpha THEN {<<"sel", o, TRUE>> : o \in Offers1 \cup Offers2} ELSE {})
 
-\* values are distinct per (goroutine, instruction, offer)
-WithVals(g, p, offs) == [i \in DOMAIN offs |-> <<offs[i][1], offs[i][2], IF offs[i][1] = "s" THEN g * 100 + p * 10 + i ELSE 0>>]
-OpOf(g, p, ins) ==
-  CASE ins[1] = "send" -> SendOp(ins[2], g * 100 + p * 10 + 1)
-    [] ins[1] \in {"recv", "range"} -> RecvOp(ins[2])
-    [] ins[1] = "close" -> CloseOp(ins[2])
-    [] ins[1] = "len" -> LenOp(ins[2])
-    [] ins[1] = "yield" -> YieldOp
-    [] ins[1] = "sel" -> SelOp(WithVals(g, p, ins[2]), ins[3])
-
 Init ==
   /\ CInit
   /\ cap \in {[c \in Chans |-> cs[c]] : cs \in Caps}
